@@ -42,6 +42,8 @@ type Check struct {
 	Values func(fn *ssa.Function) []ssa.Value
 	// TailOK: a `return <check call>()` in tail position counts as the gate for SuccessReturn effects (default true)
 	NoTail bool
+	// NoLift: do not accept a helper function that implies the check in place of the check (see wrapper lifting)
+	NoLift bool
 	// EachSiteTested: every matching call site must have its result tested by a branch (or returned in tail position);
 	// a site whose result is discarded is reported (for "all of N attempts must fail/succeed" checks)
 	EachSiteTested bool
@@ -86,8 +88,68 @@ func CallEffect(c Callee) Effect {
 		for _, ci := range Calls(g.fn, c) {
 			out = append(out, effSite{Block: ci.Block(), Instr: ci, Pos: ci.Pos(), What: "call " + c.Desc})
 		}
+		if len(out) == 0 {
+			// effect lifting: the effect may have been extracted into a helper of the same package; the call of the helper
+			// then is where the effect happens in this function
+			out = helperEffectSites(g, "call "+c.Desc, func(h *ssa.Function) bool { return len(CallsDeep(h, c)) > 0 })
+		}
 		return out
 	}}
+}
+
+// helperEffectSites: calls (in g.fn) of same-package named functions for which has() holds, directly or one level down.
+func helperEffectSites(g *gateRun, what string, has func(h *ssa.Function) bool) []effSite {
+	var out []effSite
+	if g.fn.Pkg == nil && (g.fn.Parent() == nil || Outer(g.fn).Pkg == nil) {
+		return nil
+	}
+	pkg := Outer(g.fn).Pkg
+	memo := map[*ssa.Function]bool{}
+	var contains func(h *ssa.Function, depth int) bool
+	contains = func(h *ssa.Function, depth int) bool {
+		if v, ok := memo[h]; ok {
+			return v
+		}
+		memo[h] = false
+		if has(h) {
+			memo[h] = true
+			return true
+		}
+		if depth >= 1 {
+			return false
+		}
+		for _, f := range WithAnons(h) {
+			for _, b := range f.Blocks {
+				for _, in := range b.Instrs {
+					if ci, ok := in.(ssa.CallInstruction); ok {
+						if h2 := ci.Common().StaticCallee(); h2 != nil && h2.Pkg == pkg && h2.Parent() == nil && len(h2.Blocks) > 0 && h2 != h {
+							if contains(h2, depth+1) {
+								memo[h] = true
+								return true
+							}
+						}
+					}
+				}
+			}
+		}
+		return false
+	}
+	for _, b := range g.fn.Blocks {
+		for _, in := range b.Instrs {
+			ci, ok := in.(ssa.CallInstruction)
+			if !ok {
+				continue
+			}
+			h := ci.Common().StaticCallee()
+			if h == nil || h.Pkg != pkg || h.Parent() != nil || len(h.Blocks) == 0 || h == Outer(g.fn) {
+				continue
+			}
+			if contains(h, 0) {
+				out = append(out, effSite{Block: ci.Block(), Instr: ci, Pos: ci.Pos(), What: what + " (inside " + g.p.FuncName(h) + ")"})
+			}
+		}
+	}
+	return out
 }
 
 // InstrEffect: any instruction satisfying pred.
@@ -100,6 +162,23 @@ func InstrEffect(desc string, pred func(in ssa.Instruction) bool) Effect {
 					out = append(out, effSite{Block: b, Instr: in, Pos: in.Pos(), What: desc})
 				}
 			}
+		}
+		if len(out) == 0 {
+			out = helperEffectSites(g, desc, func(h *ssa.Function) bool {
+				for _, f := range WithAnons(h) {
+					for _, b := range f.Blocks {
+						for _, in := range b.Instrs {
+							if _, isRet := in.(*ssa.Return); isRet {
+								continue // return-shaped effects belong to the function itself
+							}
+							if pred(in) {
+								return true
+							}
+						}
+					}
+				}
+				return false
+			})
 		}
 		return out
 	}}
@@ -188,6 +267,7 @@ type Gate struct {
 	// LoopOnly (with ForEach): only require that the next iteration of the loop is reachable through a pass edge (or a
 	// Skip edge); no effect is examined. Used for "the loop stops at the first failure".
 	LoopOnly bool
+	lift     int // internal: wrapper-lifting depth
 	// AllowEarlyExit (with ForEach): the loop may be left before the range is exhausted on a path that still reaches
 	// the effect (listed per instance with the reason)
 	AllowEarlyExit bool
@@ -196,14 +276,17 @@ type Gate struct {
 }
 
 type gateRun struct {
-	p          *Prog
-	fn         *ssa.Function
-	g          *Gate
-	checkVals  map[ssa.Value]Polarity // values produced by check sites (tested result) with the polarity that passes
-	checkCalls []ssa.CallInstruction
-	passEdges  EdgeSet
-	tested     int
-	tails      int // returns whose value is the check's own result (the return is the gate)
+	liftedForEach int // lifted sites whose helper contains the per-element loop
+	lift          int // nesting depth of wrapper-lifting (0 = the anchored function itself)
+	lifted        []string
+	p             *Prog
+	fn            *ssa.Function
+	g             *Gate
+	checkVals     map[ssa.Value]Polarity // values produced by check sites (tested result) with the polarity that passes
+	checkCalls    []ssa.CallInstruction
+	passEdges     EdgeSet
+	tested        int
+	tails         int // returns whose value is the check's own result (the return is the gate)
 }
 
 const (
@@ -506,6 +589,61 @@ func (g *gateRun) findPassEdges(c Check, into EdgeSet) (sites int, tested int, c
 			}
 		}
 	}
+	if g.lift < 2 && !c.NoLift {
+		// wrapper lifting: a call of a module function H counts as the check when H itself succeeds only through the check
+		// (every success return of H — or every `return true` — is gated by it). This keeps the rule stable when a block of
+		// checks is extracted into a helper.
+		for _, b := range fn.Blocks {
+			for _, in := range b.Instrs {
+				call, ok := in.(*ssa.Call)
+				if !ok || c.Call != nil && c.Call.M(call.Common()) {
+					continue
+				}
+				h := call.Common().StaticCallee()
+				if h == nil || h == fn || len(h.Blocks) == 0 || !g.p.InModule(h) {
+					continue
+				}
+				// examine the helper with its parameters standing for this site's arguments
+				var bound []*ssa.Parameter
+				if len(h.Params) == len(call.Common().Args) {
+					for i, prm := range h.Params {
+						if _, dup := paramSubst[prm]; !dup {
+							paramSubst[prm] = call.Common().Args[i]
+							bound = append(bound, prm)
+						}
+					}
+				}
+				pol, ok := g.p.impliesCheck(h, c, g.g, g.lift+1, call)
+				for _, prm := range bound {
+					delete(paramSubst, prm)
+				}
+				if !ok {
+					continue
+				}
+				if g.g.ForEach {
+					g.liftedForEach++
+				}
+				sites++
+				g.lifted = append(g.lifted, g.p.FuncName(h))
+				g.checkCalls = append(g.checkCalls, call)
+				var tv ssa.Value = call
+				res := call.Common().Signature().Results()
+				if res.Len() > 1 {
+					tv = nil
+					for _, ref := range *call.Referrers() {
+						if ex, ok := ref.(*ssa.Extract); ok && ex.Index == res.Len()-1 {
+							tv = ex
+						}
+					}
+					if tv == nil {
+						continue
+					}
+				}
+				g.checkVals[tv] = pol
+				tested += g.edgesTesting(tv, pol, into)
+			}
+		}
+	}
 	if c.Values != nil {
 		for _, tv := range c.Values(fn) {
 			sites++
@@ -541,6 +679,39 @@ func (g *gateRun) findPassEdges(c Check, into EdgeSet) (sites int, tested int, c
 				}
 			}
 		}
+		// slices.Contains(xs, y) is the equality y == (some element of xs): the same check as a hand-written loop
+		if c.Cmp.Op == token.EQL {
+			for _, b := range fn.Blocks {
+				for _, in := range b.Instrs {
+					call, ok := in.(*ssa.Call)
+					if !ok {
+						continue
+					}
+					f := call.Common().StaticCallee()
+					if f == nil || len(call.Common().Args) != 2 {
+						continue
+					}
+					if o := f.Origin(); o != nil {
+						f = o
+					}
+					if f.Pkg == nil || f.Pkg.Pkg.Path() != "slices" || f.Name() != "Contains" {
+						continue
+					}
+					xs, y := call.Common().Args[0], call.Common().Args[1]
+					m := func(p VPat, v ssa.Value) bool { return p.M(v) || p.M(stripConv(v)) }
+					if !(m(c.Cmp.L, y) && m(c.Cmp.R, xs) || m(c.Cmp.R, y) && m(c.Cmp.L, xs)) {
+						continue
+					}
+					sites++
+					pol := IsTrue
+					if !c.Cmp.PassWhen {
+						pol = IsFalse
+					}
+					g.checkVals[call] = pol
+					tested += g.edgesTesting(call, pol, into)
+				}
+			}
+		}
 		for _, b := range fn.Blocks {
 			i := ifOf(b)
 			if i == nil {
@@ -548,6 +719,18 @@ func (g *gateRun) findPassEdges(c Check, into EdgeSet) (sites int, tested int, c
 			}
 			atom, neg := condAtom(i.Cond)
 			bin, ok := atom.(*ssa.BinOp)
+			if !ok {
+				// `x := a || cmp; if x`: the If tests a phi one of whose incoming values is the comparison
+				if phi, isPhi := atom.(*ssa.Phi); isPhi {
+					for _, e := range phi.Edges {
+						if pb, isBin := e.(*ssa.BinOp); isBin {
+							if _, m := c.Cmp.match(pb); m {
+								bin, ok = pb, true
+							}
+						}
+					}
+				}
+			}
 			if !ok {
 				continue
 			}
@@ -600,6 +783,53 @@ func (c *CmpPat) match(bin *ssa.BinOp) (holds bool, ok bool) {
 		}
 		if c.L.M(x) && c.R.M(y) {
 			return f.holds, true
+		}
+	}
+	// lengths are non-negative: len(x) == 0 is also spelled len(x) <= 0, len(x) < 1, 0 >= len(x), 1 > len(x);
+	// len(x) != 0 is len(x) > 0, len(x) >= 1, 0 < len(x), 1 <= len(x)
+	if c.Op == token.EQL {
+		isLen := func(v ssa.Value) bool {
+			call, ok := stripConv(v).(*ssa.Call)
+			if !ok {
+				return false
+			}
+			b, ok := call.Call.Value.(*ssa.Builtin)
+			return ok && b.Name() == "len"
+		}
+		try := func(lenSide, constSide ssa.Value, op token.Token) (bool, bool) {
+			k, isC := ConstInt(constSide)
+			if !isC || !isLen(lenSide) {
+				return false, false
+			}
+			// normalised as: len OP k
+			var zero, known bool
+			switch {
+			case op == token.LEQ && k == 0, op == token.LSS && k == 1:
+				zero, known = true, true
+			case op == token.GTR && k == 0, op == token.GEQ && k == 1:
+				zero, known = false, true
+			}
+			if !known {
+				return false, false
+			}
+			// does the pattern describe len(x) == 0 (either operand order)?
+			z := &ssa.Const{}
+			_ = z
+			if c.L.M(lenSide) && IntV(0).M0(c.R) || c.R.M(lenSide) && IntV(0).M0(c.L) {
+				return zero, true
+			}
+			return false, false
+		}
+		switch bin.Op {
+		case token.LEQ, token.LSS, token.GTR, token.GEQ:
+			if h, ok := try(bin.X, bin.Y, bin.Op); ok {
+				return h, true
+			}
+			// constant on the left: k OP len  ==  len OP' k
+			flip := map[token.Token]token.Token{token.LEQ: token.GEQ, token.LSS: token.GTR, token.GTR: token.LSS, token.GEQ: token.LEQ}
+			if h, ok := try(bin.Y, bin.X, flip[bin.Op]); ok {
+				return h, true
+			}
 		}
 	}
 	return false, false
@@ -678,13 +908,13 @@ func (g *gateRun) assumeEdges(into EdgeSet) {
 		name := ""
 		switch x := atom.(type) {
 		case *ssa.Parameter:
-			name = x.Name()
+			name = BaselineParamName(x)
 		case *ssa.FreeVar:
-			name = x.Name()
+			name = BaselineVarName(x.Name(), x.Parent())
 		case *ssa.UnOp:
 			if x.Op == token.MUL {
 				if fv, ok := x.X.(*ssa.FreeVar); ok {
-					name = fv.Name()
+					name = BaselineVarName(fv.Name(), fv.Parent())
 				}
 			}
 		}
@@ -711,7 +941,7 @@ type GateResult struct {
 
 // RunGate decides one gate obligation.
 func (p *Prog) RunGate(g *Gate) GateResult {
-	run := &gateRun{p: p, fn: g.Fn, g: g, checkVals: map[ssa.Value]Polarity{}, passEdges: EdgeSet{}}
+	run := &gateRun{p: p, fn: g.Fn, g: g, checkVals: map[ssa.Value]Polarity{}, passEdges: EdgeSet{}, lift: g.lift}
 	var res GateResult
 	res.Pos = g.Fn.Pos()
 	res.CheckSites, res.Tested, res.Complaints = run.findPassEdges(g.Check, run.passEdges)
@@ -748,7 +978,7 @@ func (p *Prog) RunGate(g *Gate) GateResult {
 				blocked[l.Header] = true
 			}
 		}
-		if len(loops) == 0 && res.Tested > 0 {
+		if len(loops) == 0 && res.Tested > 0 && run.liftedForEach == 0 {
 			res.Violations = append(res.Violations, "ForEach check is not inside a loop")
 		}
 		if res.CheckSites > 0 && res.Tested == 0 && run.tails == 0 {
@@ -1004,6 +1234,7 @@ type Refuse struct {
 	Min    int    // minimal number of condition edges (default 1)
 	Exists bool   // only require that at least Min edges refuse (other edges on the same condition may continue)
 	Assume map[string]bool
+	noLift bool
 }
 
 func (r *Report) Refuse(s Refuse) {
@@ -1031,6 +1262,38 @@ func (r *Report) Refuse(s Refuse) {
 	if min == 0 {
 		min = 1
 	}
+	if len(edges) < min && !s.noLift {
+		// the refusal may have been extracted into a helper of the same package: the helper must refuse (its own success is
+		// unreachable when the condition holds) and the helper's success must gate the effect here
+		for _, b := range s.Fn.Blocks {
+			for _, in := range b.Instrs {
+				call, ok := in.(*ssa.Call)
+				if !ok {
+					continue
+				}
+				h := call.Common().StaticCallee()
+				if h == nil || h == s.Fn || len(h.Blocks) == 0 || h.Pkg == nil || s.Fn.Pkg == nil || h.Pkg != s.Fn.Pkg || h.Parent() != nil {
+					continue
+				}
+				res := h.Signature.Results()
+				if res.Len() == 0 || !isErrorType(res.At(res.Len()-1).Type()) {
+					continue
+				}
+				sub := NewReport(r.Prop, r.Tier, r.P)
+				sub.Refuse(Refuse{ID: s.ID, Fn: h, Cond: s.Cond, Min: s.Min, Exists: s.Exists, noLift: true})
+				if len(sub.Obls) != 1 || sub.Obls[0].Status != Discharged {
+					continue
+				}
+				gg := &Gate{Fn: s.Fn, Effect: eff, Check: ErrCheck(SSAFn(h, r.P.FuncName(h)))}
+				gr := r.P.RunGate(gg)
+				if gr.CheckSites >= 1 && len(gr.Violations) == 0 && len(gr.Complaints) == 0 {
+					r.Sites += sub.Sites
+					r.OK(key, rule, r.P.Pos(s.Fn.Pos()), "refused inside the helper "+r.P.FuncName(h)+", whose error gates "+eff.Desc+" here: "+sub.Obls[0].Detail, true)
+					return
+				}
+			}
+		}
+	}
 	if len(edges) < min {
 		r.Bad(key, rule, r.P.Pos(s.Fn.Pos()), fmt.Sprintf("condition [%s] is tested on %d branch(es) in %s, expected >= %d: the refusal is missing", s.Cond.Desc, len(edges), r.P.FuncName(s.Fn), min))
 		return
@@ -1038,7 +1301,7 @@ func (r *Report) Refuse(s Refuse) {
 	refusing := 0
 	var bad []string
 	for e := range edges {
-		reach := Reach(e.To(), removed, nil)
+		reach := ReachFromEdge(e, removed, nil)
 		hit := ""
 		for _, ef := range effects {
 			if len(ef.Seq) == 0 {
@@ -1333,3 +1596,65 @@ func valueReturned(v ssa.Value) bool {
 	}
 	return false
 }
+
+type impliesKey struct {
+	site *ssa.Call
+	fn   *ssa.Function
+	desc string
+	pass Polarity
+}
+
+var impliesMemo = map[impliesKey]int{}
+
+// impliesCheck: does a successful return of h imply that check c passed inside h? Returns the polarity with which h's own
+// result signals success (ErrNil for an error result, IsTrue for a sole bool result).
+func (p *Prog) impliesCheck(h *ssa.Function, c Check, parent *Gate, lift int, site *ssa.Call) (Polarity, bool) {
+	res := h.Signature.Results()
+	type attempt struct {
+		eff Effect
+		pol Polarity
+	}
+	var attempts []attempt
+	switch {
+	case res.Len() >= 1 && isErrorType(res.At(res.Len()-1).Type()):
+		attempts = []attempt{{SuccessReturn(), ErrNil}}
+	case res.Len() == 1 && types.Identical(res.At(0).Type().Underlying(), types.Typ[types.Bool]):
+		// a bool helper may signal "the check passed" by true (all checks held) or by false (a filter rejected)
+		attempts = []attempt{{ReturnsBool(0, true), IsTrue}, {ReturnsBool(0, false), IsFalse}}
+	default:
+		return 0, false
+	}
+	for _, at := range attempts {
+		desc := c.Desc + "/" + at.pol.String()
+		if parent != nil && parent.ForEach {
+			desc += " (for each)"
+		}
+		k := impliesKey{site, h, desc, c.Pass}
+		if m, ok := impliesMemo[k]; ok {
+			if m == 1 {
+				return at.pol, true
+			}
+			continue
+		}
+		impliesMemo[k] = 2 // provisional (recursion)
+		g := &Gate{Fn: h, Effect: at.eff, Check: c, lift: lift}
+		if parent != nil && parent.ForEach {
+			// the per-element loop may have moved into the helper together with the check
+			g.ForEach, g.Skip, g.AllowEarlyExit = true, parent.Skip, parent.AllowEarlyExit
+		}
+		r := p.RunGate(g)
+		if g.ForEach && (r.CheckSites == 0 || len(r.Violations) > 0) {
+			// ... or only the check moved and the loop stayed in the caller
+			g2 := &Gate{Fn: h, Effect: at.eff, Check: c, lift: lift}
+			r = p.RunGate(g2)
+		}
+		if r.CheckSites >= 1 && r.EffectSites >= 1 && len(r.Violations) == 0 && len(r.Complaints) == 0 {
+			impliesMemo[k] = 1
+			return at.pol, true
+		}
+	}
+	return 0, false
+}
+
+// Match exposes CmpPat.match.
+func (c *CmpPat) Match(bin *ssa.BinOp) (holds bool, ok bool) { return c.match(bin) }
